@@ -178,7 +178,7 @@ EXTRA = {
  "C17": "free-name guard of the synthetic TokenSet category; once-per-key emission of Go declarations; interning-pair rule; decision-table agreement of NeedsSession with the template's session struct; all-paths enumeration of file selection against template imports; call/definition arity agreement on template trees; template guard-formula rules for struct fields, node type identifiers and predicate chains (all truth assignments of the option atoms); guard-formula agreement of every `ctx, ` argument with the callee's parameter and the enclosing function's scope; separator-in-slice condition of the import alias elision; identifier registration discipline of explicit token IDs",
  "C18": "global map aliased through struct fields; mutating methods of sync containers held in package-level variables; ordered-comparison requirement for comparators that discharge a map iteration",
  "C19": "constant propagation of stream.recoveryMode; histogram reset range; end-of-input guard of the token-skipping loop; nil-stack guard of the js token stream; non-emptiness form of the IsRecovering flag",
- "C20": "must-write analysis of Init (and of parse() for Parser) for every run-state field of Lexer/Parser/TokenStream",
+ "C20": "must-write analysis of Init (and of parse() for Parser) for every run-state field of Lexer/Parser/TokenStream; direction of the start-of-range update in recoverFromError",
  "C21": "fresh-backing-array analysis of copied field records; child test of addNode; save/restore dominance; sibling check of the two Tarjan implementations; unconditional rule-class key components; compare-and-store agreement of min updates in syntax; residue-with-quotient rule for the bit test of generated selectors; equality of merged list expressions including arrow types; root node adopts every reported node",
  "C22": "lookup-index guard; in-progress memo reachability and mark-before-descend dominance; valid-anchor guard for optional nodes; Origin coverage of every syntax.Expr literal; next-element bound of range loops; sentinel inside the follow-set universe",
  "C23": "source-cursor bounds of the grammar lexer; sentinel-index guards in verbose conflict explanations; memoised recursions of the compiler; no success return of a change handler bypasses typecheck; provenance of la-set elements as possibly-sentinel indices",
